@@ -227,6 +227,7 @@ func c04Fluent(r *rand.Rand, idx int, docs []map[string]any) Case {
 	file := filepath.Join(dir, fmt.Sprintf("f%d.yaml", idx))
 	defer os.Remove(file)
 	var got any
+	var typedExtra []map[string]any
 	pn := guard(func() {
 		// helpers are independent of each other: one that was only mutated leaves nothing behind for the next
 		fluent.NewConfigHelper[map[string]any]().Mutate(func(cb dom.ContainerBuilder) {
@@ -249,6 +250,19 @@ func c04Fluent(r *rand.Rand, idx int, docs []map[string]any) Case {
 			}
 			if i == 0 && (idx/8)%3 == 0 { // the accumulated result looked at after the first source, two more follow in a row
 				_ = h.Result()
+			}
+		}
+		// sources whose VALUES are typed maps and slices (not map[string]interface{} / []interface{}): sections merge, lists meld
+		if (idx/2)%4 == 0 {
+			h.Add(map[string]map[string]string{"typed-section": {"k": "v", "keep": "1"}, "typed-b": {"x": "y"}})
+			h.Add(map[string]map[string]string{"typed-section": {"k2": "v2", "k": "w"}})
+			h.Add(map[string][]string{"typed-list": {"a", "b", "c"}})
+			h.Add(map[string][]string{"typed-list": {"z"}})
+			typedExtra = []map[string]any{
+				{"typed-section": map[string]any{"k": "v", "keep": "1"}, "typed-b": map[string]any{"x": "y"}},
+				{"typed-section": map[string]any{"k2": "v2", "k": "w"}},
+				{"typed-list": []any{"a", "b", "c"}},
+				{"typed-list": []any{"z"}},
 			}
 		}
 		// last document through a file
@@ -274,6 +288,10 @@ func c04Fluent(r *rand.Rand, idx int, docs []map[string]any) Case {
 	})
 	if pn != "" {
 		return Case{Kind: "fluent", Desc: map[string]any{"docs": docs, "panic": pn}, Fail: []string{"panic in ConfigHelper: " + pn}, Nontrivial: true}
+	}
+	// (the typed sources come after the plain ones and before the file)
+	if len(typedExtra) > 0 {
+		docs = append(append(append([]map[string]any{}, docs[:len(docs)-1]...), typedExtra...), docs[len(docs)-1])
 	}
 	want := any(map[string]any{})
 	nodes := make([]any, len(docs))
@@ -364,6 +382,21 @@ func init() {
 				docs := []map[string]any{a, deriveDoc(r, a, o)}
 				if r.Intn(2) == 0 {
 					docs = append(docs, genDoc(r, o))
+				}
+				if r.Intn(3) == 0 {
+					// three and four layers that disagree about the KIND of one member: the layers are folded in pairs, in order —
+					// a scalar or a null below two mappings (or two lists) does not keep those two from merging
+					k := o.keys[r.Intn(len(o.keys))]
+					lo := []any{"placeholder", nil, 7, []any{"l"}}[r.Intn(4)]
+					mid, top := any(map[string]any{"host": "a"}), any(map[string]any{"port": 1})
+					if r.Intn(3) == 0 {
+						mid, top = []any{1, 2, 3}, []any{9}
+					}
+					docs = []map[string]any{deepCopy(a).(map[string]any), deepCopy(a).(map[string]any), deepCopy(a).(map[string]any)}
+					docs[0][k], docs[1][k], docs[2][k] = lo, mid, top
+					if r.Intn(2) == 0 {
+						docs = append(docs, map[string]any{k: []any{nil, "again", map[string]any{"z": 0}}[r.Intn(3)]})
+					}
 				}
 				return c04Overlay(r, docs, r.Intn(2) == 0)
 			case 7:
